@@ -54,7 +54,8 @@ def ctx_for(lang):
 
 def load(ctx, lib, flags):
     tid = ctx.NAMESPACE_DATA["Template"]["id"]
-    ctx.db_conn.execute("DELETE FROM pages WHERE namespace_id = ?", (tid,))
+    # no DELETE: the six library titles are stored AGAIN (upsert) with the new bodies and flags, as a long-lived
+    # store sees them; 'missing' is never stored
     for n, b in lib.items():
         ctx.add_page(ctx.NAMESPACE_DATA["Template"]["name"] + ":" + n, tid, G.render(b), need_pre_expand=(n in flags))
     try:
@@ -69,6 +70,15 @@ def make_cfg(rng, i, base=None):
     if base is None:
         lib = G.gen_library(rng, 6, rng.randint(1, 2), cfg, tags, names=NAMES)
         page = G.seq(rng, rng.randint(1, 3), NAMES, False, cfg, tags)
+        if rng.random() < 0.25:
+            # calls whose name is computed by a nested parser function: {{t{{#if:1|a}}|x}}
+            extra = []
+            for _ in range(rng.randint(1, 2)):
+                letter = rng.choice("abcdefz")
+                inner = ("IF", ("S", [("T", "1")]), ("S", [("T", letter)]), ("S", [("T", "")]))
+                args = [("pos", ("S", [("T", rng.choice(["x", "y 1", ""]))]))] if rng.random() < 0.6 else []
+                extra.append(("CN", "t", inner, "t" + letter, args))
+            page = ("S", page[1] + extra)
     else:
         lib, page = base["lib"], base["page"]
     sel_bits = i % 64
